@@ -271,6 +271,38 @@ def build_harness(name, sources, extra_flags=(), sanitize=True, cxx=None, libs=(
     return exe
 
 
+CORE_HEADERS = ["awaiter.h", "future.h", "suspend_point.h", "coro_queue.h", "async.h", "common.h", "exceptions.h"]
+
+
+def header_hashes():
+    d = os.path.join(REPO, "src", "cocls")
+    out = {}
+    for fn in sorted(os.listdir(d)):
+        p = os.path.join(d, fn)
+        if os.path.isfile(p):
+            out[fn] = hashlib.sha256(open(p, "rb").read()).hexdigest()[:16]
+    return out
+
+
+def changed_anchor_headers(pid):
+    """headers relevant to property `pid` whose text differs from the tree the models were validated against (anchors.json).
+    Used only to DEEPEN the run (more cases), never as an alarm."""
+    try:
+        base = json.load(open(os.path.join(VERIF, "anchors.json")))
+    except (OSError, ValueError):
+        return []
+    files = set(CORE_HEADERS)
+    try:
+        for line in open(os.path.join(VERIF, "properties.jsonl")):
+            p = json.loads(line)
+            if p["id"] == pid:
+                files |= {os.path.basename(f) for f in p["anchors"]["files"]}
+    except (OSError, ValueError, KeyError):
+        pass
+    cur = header_hashes()
+    return sorted(f for f in files if cur.get(f) != base.get("headers", {}).get(f))
+
+
 def driver_exe(name):
     return os.path.join(LEAN, ".lake", "build", "bin", name)
 
